@@ -1582,6 +1582,18 @@ def _list(it, a, k, n):
     view = iter_view(it, v, n)
     cn = concrete_int(view.length)
     if cn is None:
+        if view.shape is not None:
+            # the remaining elements of a view over a symbolic list, as a new list (named array + defining axiom)
+            from .symex import QRANGES
+            new = fresh_list(it, view.shape, "list_of_view")
+            i = z3.Int(it.ctx.fresh_name("k_lov"))
+            QRANGES[i.decl().name()] = (z3.IntVal(0), new.length)
+            it.ctx.assume(new.length == view.length, "list(view):length")
+            it.ctx.assume(z3.ForAll([i], z3.Implies(z3.And(i >= 0, i < new.length),
+                                                    ops.eq(ops.list_get(new, i), view.get(i)))), "list(view):elements")
+            if view.consume:
+                view.consume(view.length)
+            return new
         raise Unsupported("list() of symbolic iterable")
     return VList([view.get(z3.IntVal(i)) for i in range(cn)])
 
